@@ -33,7 +33,21 @@ func H_C12_no_shared_writes() {
 	vFreeze(probe, "shared-input-value")
 	vFreeze(lists, "shared-input-value")
 	vFreeze(ref, "shared-input-bytes")
-	switch vChoice("call", 10) {
+	// a message from a peer whose class carries a field this side lacks (the decoder's "skip unknown field" branch)
+	newer := refCat(refClassDef("ZInner", []string{"n", "added", "s"}), []byte{0x60}, refInt(4), refStr("new"), refStr("s"))
+	vFreeze(newer, "shared-input-bytes")
+	switch vChoice("call", 12) {
+	case 10:
+		o, err := NewDecoder(nil, tm).Decode(newer)
+		g, ok := o.(*ZInner)
+		vAssert("decode-newer-peer", err == nil && ok && g.N == 4 && g.S == "s")
+	case 11:
+		p := NewSerializerPool(2, tm, nm)
+		s := p.Get().(Serializer)
+		o, err := s.ToObject(newer)
+		p.Return(s)
+		_, ok := o.(*ZInner)
+		vAssert("pool-decode-newer-peer", err == nil && ok)
 	case 8:
 		b, err := NewEncoder(nil, nm).Encode(named)
 		vAssert("encode-custom-named", err == nil && eqBytes(b, refNamed))
